@@ -16,18 +16,130 @@ def RowOK (f : CsvFmt) (geo : Bool) (pf : List Tok) (r : Row) : Prop :=
   (f.idT ≠ -1 → Fits r.t) ∧
   decTrunc (r.x.toInt, (floatFmt geo).2) ≠ noData ∧ decTrunc (r.y.toInt, (floatFmt geo).2) ≠ noData
 
+/-! ### the header block -/
+
+theorem dropWhile_snoc (p : Char → Bool) (l : Str) (x : Char) (h : p x = false) :
+    (l ++ [x]).dropWhile p = l.dropWhile p ++ [x] := by
+  induction l with
+  | nil => simp [List.dropWhile, h]
+  | cons a r ih =>
+    by_cases ha : p a = true
+    · simp [List.dropWhile, ha, ih]
+    · simp [List.dropWhile, ha]
+
+/-- a line that starts with the comment character still does after `strip()` -/
+theorem strip_hash (cs : Str) : ∃ cs', strip ('#' :: cs) = '#' :: cs' := by
+  refine ⟨(cs.reverse.dropWhile isWs).reverse, ?_⟩
+  unfold strip
+  rw [lstrip_cons_of_not_ws cs (by decide)]
+  unfold rstrip
+  rw [List.reverse_cons, dropWhile_snoc isWs _ '#' (by decide)]
+  simp
+
+/-- what the header block needs of the coordinate system name and of the feature names: no end of line in them -/
+def HdrOK (srid : Str) (names : List Str) : Prop := '\n' ∉ srid ∧ ∀ n ∈ names, '\n' ∉ n
+
+theorem headerAF_mem (sep : Char) (names : List Str) (acc : Str) (c : Char)
+    (hc : c ∈ names.foldl (fun acc n => acc ++ [sep] ++ n) acc) : c ∈ acc ∨ c = sep ∨ ∃ n ∈ names, c ∈ n := by
+  induction names generalizing acc with
+  | nil => exact Or.inl hc
+  | cons n r ih =>
+    rcases ih _ hc with h | h | ⟨m, hm, hcm⟩
+    · simp only [List.mem_append, List.mem_singleton] at h
+      rcases h with (h | h) | h
+      · exact Or.inl h
+      · exact Or.inr (Or.inl h)
+      · exact Or.inr (Or.inr ⟨n, by simp, h⟩)
+    · exact Or.inr (Or.inl h)
+    · exact Or.inr (Or.inr ⟨m, by simp [hm], hcm⟩)
+
+theorem hdrNames_nl (srid : Str) :
+    '\n' ∉ strip (hdrNames srid).1 ∧ '\n' ∉ strip (hdrNames srid).2.1 ∧ '\n' ∉ strip (hdrNames srid).2.2
+      ∧ '\n' ∉ strip "time".toList := by
+  unfold hdrNames
+  split
+  · decide
+  · split <;> decide
+
+/-- the header block of `writeToFile` for a bijective layout: three lines, none contains an end of line, each
+starts with the comment character (also after `strip()`) -/
+theorem headerBlock_ok (f : CsvFmt) (hv : ValidIds f) (hnl : f.sep ≠ '\n') (naf : Nat) (srid : Str) (names : List Str)
+    (hh : HdrOK srid names) :
+    ∃ hdr, headerBlock f srid names (orderList f naf) = .ok hdr ∧ hdr.length = 3 ∧
+      ∀ l ∈ hdr, '\n' ∉ l ∧ ∃ cs, strip l = '#' :: cs := by
+  unfold headerBlock
+  have hn := hdrNames_nl srid
+  cases hx : hdrNames srid with
+  | mk a bc =>
+    cases bc with
+    | mk b c =>
+      rw [hx] at hn
+      simp only at hn ⊢
+      have hU : (if f.idU = -1 then none else some c).isSome = decide (f.idU ≠ -1) := by split <;> simp_all
+      have hT : (if f.idT = -1 then none else some "time".toList).isSome = decide (f.idT ≠ -1) := by split <;> simp_all
+      rw [printInOrder_layout f hv naf a b _ _ _ hU hT]
+      simp only [bind, Except.bind, pure, Except.pure]
+      refine ⟨_, rfl, rfl, ?_⟩
+      intro l hl
+      simp only [List.mem_cons, List.not_mem_nil, or_false] at hl
+      have hs1 : '\n' ∉ "srid: ".toList := by decide
+      have hs2 : '\n' ∉ "Geo".toList := by decide
+      rcases hl with rfl | rfl | rfl
+      · refine ⟨?_, strip_hash _⟩
+        intro hc
+        simp only [List.mem_cons, List.mem_append] at hc
+        rcases hc with hc | hc | hc
+        · exact absurd hc (by decide)
+        · exact hs1 hc
+        · split at hc
+          · exact hs2 hc
+          · exact hh.1 hc
+      · exact ⟨by decide, strip_hash _⟩
+      · refine ⟨?_, strip_hash _⟩
+        intro hc
+        simp only [List.mem_cons, List.mem_append] at hc
+        rcases hc with hc | hc | hc
+        · exact absurd hc (by decide)
+        · rcases mem_joinChar hc with h | ⟨v, hv', hcv⟩
+          · exact hnl h.symm
+          · rcases mem_cols f hv _ _ _ _ (by simpa using hU) (by simpa using hT) v hv' with h | h | h | h
+            · subst h; exact hn.1 hcv
+            · subst h; exact hn.2.1 hcv
+            · split at h
+              · simp at h
+              · simp only [Option.map_some, Option.some.injEq] at h
+                subst h; exact hn.2.2.1 hcv
+            · split at h
+              · simp at h
+              · simp only [Option.map_some, Option.some.injEq] at h
+                subst h; exact hn.2.2.2 hcv
+        · rcases headerAF_mem f.sep names [] _ hc with h | h | ⟨n, hn', hcn⟩
+          · simp at h
+          · exact hnl h.symm
+          · exact hh.2 n hn' hcn
+
+/-- the text `writeToFile` produces: the header block when `h > 0` (three comment lines), then the data lines -/
 theorem writeToFile_eq (f : CsvFmt) (geo : Bool) (pf : List Tok) (h naf : Nat) (rows : List (Row × List Int))
+    (srid : Str) (names : List Str)
     (hv : ValidIds f) (hsep : numChar f.sep = false) (hnl : f.sep ≠ '\n') (htime : f.idT ≠ -1 → TimeOK pf f.sep)
-    (hrows : ∀ ra ∈ rows, RowOK f geo pf ra.1) :
-    writeToFile f geo pf h naf rows
-      = .ok ((rows.map (fun ra => rowLine f geo pf ra.1 ra.2)).map (· ++ ['\n'])).flatten := by
+    (hrows : ∀ ra ∈ rows, RowOK f geo pf ra.1) (hh : HdrOK srid names) :
+    ∃ hdr, hdr.length = (if h = 0 then 0 else 3) ∧ (∀ l ∈ hdr, '\n' ∉ l ∧ ∃ cs, strip l = '#' :: cs) ∧
+    writeToFile f geo pf h naf rows srid names
+      = .ok ((hdr ++ rows.map (fun ra => rowLine f geo pf ra.1 ra.2)).map (· ++ ['\n'])).flatten := by
   unfold writeToFile
   have := mapM_ok (fun ra : Row × List Int => writeRow f geo pf (orderList f naf) ra.1 ra.2)
     (fun ra => rowLine f geo pf ra.1 ra.2) rows (by
       intro ra hra
       have hr := hrows ra hra
       exact (row_roundtrip_line f geo pf naf ra.1 ra.2 hv hsep hnl (fun ht => ⟨htime ht, hr.1 ht⟩) hr.2).1)
-  simp only [this, hdrEff, Nat.lt_irrefl, ↓reduceIte, pure, Except.pure, bind, Except.bind, List.nil_append]
+  by_cases h0 : h = 0
+  · subst h0
+    refine ⟨[], rfl, by simp, ?_⟩
+    simp only [this, Nat.lt_irrefl, ↓reduceIte, pure, Except.pure, bind, Except.bind, List.nil_append]
+  · obtain ⟨hdr, hb, hlen, hl⟩ := headerBlock_ok f hv hnl naf srid names hh
+    refine ⟨hdr, by simp [h0, hlen], hl, ?_⟩
+    have hpos : h > 0 := Nat.pos_of_ne_zero h0
+    simp only [this, hpos, ↓reduceIte, hb, pure, Except.pure, bind, Except.bind]
 
 theorem readLines_lines (f : CsvFmt) (geo : Bool) (pf : List Tok) (naf : Nat) (rows : List (Row × List Int))
     (hv : ValidIds f) (hsep : numChar f.sep = false) (hnl : f.sep ≠ '\n') (htime : f.idT ≠ -1 → TimeOK pf f.sep)
@@ -45,35 +157,6 @@ theorem readLines_lines (f : CsvFmt) (geo : Bool) (pf : List Tok) (naf : Nat) (r
     rw [← hc, hread, ih (fun x hx => hrows x (by simp [hx]))]
     rfl
 
-/-- **T2 (file)**: the whole file -/
-theorem csv_file_roundtrip (f : CsvFmt) (geo : Bool) (pf : List Tok) (h naf : Nat) (rows : List (Row × List Int))
-    (hv : ValidIds f) (hsep : numChar f.sep = false) (hnl : f.sep ≠ '\n') (htime : f.idT ≠ -1 → TimeOK pf f.sep)
-    (hrows : ∀ ra ∈ rows, RowOK f geo pf ra.1) :
-    ∃ text, writeToFile f geo pf h naf rows = .ok text ∧
-      readCsv f pf 0 text = .ok (rows.map (fun ra => expRow f geo pf ra.1)) ∧
-      (∀ ra rest, rows = ra :: rest → readCsv f pf 1 text = .ok (rest.map (fun ra => expRow f geo pf ra.1))) := by
-  refine ⟨_, writeToFile_eq f geo pf h naf rows hv hsep hnl htime hrows, ?_, ?_⟩
-  · unfold readCsv
-    rw [fileLines_flatten]
-    · simp only [skipHeader, pure, Except.pure, bind, Except.bind]
-      exact readLines_lines f geo pf naf rows hv hsep hnl htime hrows
-    · intro l hl
-      simp only [List.mem_map] at hl
-      obtain ⟨ra, hra, rfl⟩ := hl
-      have hr := hrows ra hra
-      exact (row_roundtrip_line f geo pf naf ra.1 ra.2 hv hsep hnl (fun ht => ⟨htime ht, hr.1 ht⟩) hr.2).2.1
-  · intro ra rest he
-    subst he
-    unfold readCsv
-    rw [fileLines_flatten]
-    · simp only [List.map_cons, skipHeader, pure, Except.pure, bind, Except.bind]
-      exact readLines_lines f geo pf naf rest hv hsep hnl htime (fun x hx => hrows x (by simp [hx]))
-    · intro l hl
-      simp only [List.mem_map] at hl
-      obtain ⟨ra', hra, rfl⟩ := hl
-      have hr := hrows ra' hra
-      exact (row_roundtrip_line f geo pf naf ra'.1 ra'.2 hv hsep hnl (fun ht => ⟨htime ht, hr.1 ht⟩) hr.2).2.1
-
 theorem readLines_skip_comments (f : CsvFmt) (rf : List Tok) (cm ls : List Str)
     (h : ∀ l ∈ cm, ∃ cs, strip l = '#' :: cs) : readLines f rf '#' (cm ++ ls) = readLines f rf '#' ls := by
   induction cm with
@@ -83,25 +166,49 @@ theorem readLines_skip_comments (f : CsvFmt) (rf : List Tok) (cm ls : List Str)
     simp only [List.cons_append, readLines, hcs, ↓reduceIte]
     exact ih (fun x hx => h x (by simp [hx]))
 
-/-- a file that starts with a header block — a first line, then comment lines — followed by the data lines is
-read with `h=1` as the observations: what the repaired writer (`fmt.header = h`) produces -/
+theorem skipHeader_append (pre ls : List Str) : skipHeader pre.length (pre ++ ls) = .ok ls := by
+  induction pre with
+  | nil => rfl
+  | cons a r ih => simpa [skipHeader] using ih
+
+/-- reader side of the header option: a file that starts with `header` lines of any content, then any number of
+comment lines, then the data lines is read as the observations -/
 theorem csv_header_block_roundtrip (f : CsvFmt) (geo : Bool) (pf : List Tok) (naf : Nat) (rows : List (Row × List Int))
     (hv : ValidIds f) (hsep : numChar f.sep = false) (hnl : f.sep ≠ '\n') (htime : f.idT ≠ -1 → TimeOK pf f.sep)
     (hrows : ∀ ra ∈ rows, RowOK f geo pf ra.1)
-    (first : Str) (cm : List Str) (hfirst : '\n' ∉ first) (hcm : ∀ l ∈ cm, '\n' ∉ l ∧ ∃ cs, strip l = '#' :: cs) :
-    readCsv f pf 1 (((first :: cm ++ rows.map (fun ra => rowLine f geo pf ra.1 ra.2)).map (· ++ ['\n'])).flatten)
+    (pre : List Str) (cm : List Str) (hpre : ∀ l ∈ pre, '\n' ∉ l) (hcm : ∀ l ∈ cm, '\n' ∉ l ∧ ∃ cs, strip l = '#' :: cs) :
+    readCsv f pf pre.length (((pre ++ (cm ++ rows.map (fun ra => rowLine f geo pf ra.1 ra.2))).map (· ++ ['\n'])).flatten)
       = .ok (rows.map (fun ra => expRow f geo pf ra.1)) := by
   unfold readCsv
   rw [fileLines_flatten]
-  · simp only [List.cons_append, skipHeader, pure, Except.pure, bind, Except.bind]
+  · rw [skipHeader_append]
+    simp only [bind, Except.bind]
     rw [readLines_skip_comments f pf cm _ (fun l hl => (hcm l hl).2)]
     exact readLines_lines f geo pf naf rows hv hsep hnl htime hrows
   · intro l hl
-    simp only [List.cons_append, List.mem_cons, List.mem_append, List.mem_map] at hl
-    rcases hl with rfl | hl | ⟨ra, hra, rfl⟩
-    · exact hfirst
+    simp only [List.mem_append, List.mem_map] at hl
+    rcases hl with hl | hl | ⟨ra, hra, rfl⟩
+    · exact hpre l hl
     · exact (hcm l hl).1
     · have hr := hrows ra hra
       exact (row_roundtrip_line f geo pf naf ra.1 ra.2 hv hsep hnl (fun ht => ⟨htime ht, hr.1 ht⟩) hr.2).2.1
+
+/-- **T2 (file)**: the whole file, with or without the header block, read with any header count up to the number
+of header lines written -/
+theorem csv_file_roundtrip (f : CsvFmt) (geo : Bool) (pf : List Tok) (h naf : Nat) (rows : List (Row × List Int))
+    (srid : Str) (names : List Str)
+    (hv : ValidIds f) (hsep : numChar f.sep = false) (hnl : f.sep ≠ '\n') (htime : f.idT ≠ -1 → TimeOK pf f.sep)
+    (hrows : ∀ ra ∈ rows, RowOK f geo pf ra.1) (hh : HdrOK srid names) :
+    ∃ text, writeToFile f geo pf h naf rows srid names = .ok text ∧
+      ∀ hr, hr ≤ (if h = 0 then 0 else 3) → readCsv f pf hr text = .ok (rows.map (fun ra => expRow f geo pf ra.1)) := by
+  obtain ⟨hdr, hlen, hl, hw⟩ := writeToFile_eq f geo pf h naf rows srid names hv hsep hnl htime hrows hh
+  refine ⟨_, hw, ?_⟩
+  intro hr hle
+  rw [← hlen] at hle
+  have hlt : (hdr.take hr).length = hr := by simp [List.length_take, Nat.min_eq_left hle]
+  have := csv_header_block_roundtrip f geo pf naf rows hv hsep hnl htime hrows (hdr.take hr) (hdr.drop hr)
+    (fun l hm => (hl l (List.mem_of_mem_take hm)).1) (fun l hm => hl l (List.mem_of_mem_drop hm))
+  rw [hlt, ← List.append_assoc, List.take_append_drop] at this
+  exact this
 
 end TV.TextIO
